@@ -435,7 +435,10 @@ def cmaps(ck):
                             sysd = near_miss_system(rng, sysd)   # differs in name / dtype / one coordinate / order only
                         M = np.zeros((other.ndims[1] + 1, sysd.ndim + 1), dtype=np.int64)
                         M[:-1, :-1] = rng.integers(-2, 3, (other.ndims[1], sysd.ndim)); M[:-1, -1] = rng.integers(-3, 4, other.ndims[1]); M[-1, -1] = 1
-                        other = AffineTransform(sysd, other.function_range, M.astype(sysd.coord_dtype))
+                        # both systems of `other` carry the dtype of sysd (AffineTransform promotes mixed dtypes to a common one,
+                        # which would silently undo a dtype near-miss)
+                        other = AffineTransform(sysd, CS(other.function_range.coord_names, other.function_range.name, sysd.coord_dtype),
+                                                M.astype(sysd.coord_dtype))
                         f = lambda o: cmod.compose(other, o)
                         cop = "CComposeLeft %s" % caff(other)
                     else:
@@ -444,7 +447,8 @@ def cmaps(ck):
                             sysr = near_miss_system(rng, sysr)
                         M = np.zeros((sysr.ndim + 1, other.ndims[0] + 1), dtype=np.int64)
                         M[:-1, :-1] = rng.integers(-2, 3, (sysr.ndim, other.ndims[0])); M[:-1, -1] = rng.integers(-3, 4, sysr.ndim); M[-1, -1] = 1
-                        other = AffineTransform(other.function_domain, sysr, M.astype(sysr.coord_dtype))
+                        other = AffineTransform(CS(other.function_domain.coord_names, other.function_domain.name, sysr.coord_dtype), sysr,
+                                                M.astype(sysr.coord_dtype))
                         f = lambda o: cmod.compose(o, other)
                         cop = "CComposeRight %s" % caff(other)
                 else:
